@@ -176,3 +176,49 @@ def expected_display(part, orc, cellfn):
     ro = display_map(part.row_order(), orc.n_base_rows, len(orc.row_specs))
     co = display_map(part.column_order(), orc.n_base_cols, len(orc.col_specs))
     return [[cellfn(i, j) for j in co] for i in ro]
+
+
+class SignedSlice:
+    """Oracle view of a slice whose elements are signed groups of base elements:
+    a base element k is ([k], []), a subtotal is (addends, subtrahends).
+
+    sign(r, I, J) -> (s_row, valid_row, s_col, valid_col) with s in {+1, -1, 0}: +1 for a
+    member of an addend, -1 for a member of a subtrahend, 0 otherwise.
+    """
+
+    def __init__(self, orc, cfg):
+        self.orc = orc
+        self.row_specs = resolve_insertions(orc.rows, cfg.get("rows"))
+        self.col_specs = resolve_insertions(orc.cols, cfg.get("cols"))
+        self.rows = [([k], []) for k in range(len(orc.rows))] + [(a, s) for _, a, s in self.row_specs]
+        self.cols = [([k], []) for k in range(len(orc.cols))] + [(a, s) for _, a, s in self.col_specs]
+        self.n_base_rows = len(orc.rows)
+        self.n_base_cols = len(orc.cols)
+        self.data = orc.data
+
+    def overlapping(self, I, J):
+        (ra, rs), (ca, cs) = self.rows[I], self.cols[J]
+        return bool(set(ra) & set(rs)) or bool(set(ca) & set(cs))
+
+    def is_diff_row(self, I):
+        return bool(self.rows[I][1])
+
+    def is_diff_col(self, J):
+        return bool(self.cols[J][1])
+
+    def sign(self, r, I, J):
+        (ra, rs), (ca, cs) = self.rows[I], self.cols[J]
+        rall, call = ra + rs, ca + cs
+        bp = self.orc._base_preds
+        sr = 1 if any(bp(r, a, b)[0] for a in ra for b in call) else (
+            -1 if any(bp(r, a, b)[0] for a in rs for b in call) else 0)
+        sc = 1 if any(bp(r, a, b)[2] for a in rall for b in ca) else (
+            -1 if any(bp(r, a, b)[2] for a in rall for b in cs) else 0)
+        vr = any(bp(r, a, b)[1] for a in rall for b in call)
+        vc = any(bp(r, a, b)[3] for a in rall for b in call)
+        return sr, vr, sc, vc
+
+    def display(self, part):
+        ro = display_map(part.row_order(), self.n_base_rows, len(self.row_specs))
+        co = display_map(part.column_order(), self.n_base_cols, len(self.col_specs))
+        return ro, co
